@@ -87,6 +87,10 @@ def gen(ctx):
     for q in ("^[?@ == 5]", "^[0]", "^[?@.a]", "^[*]", "^..*"):
         for d in (5, "abc", None, True, 1.5, [], {}):
             cases.append({"kind": "fake", "text": q, "doc": d, "ctx": {}})
+    for parts in (["$.a", "|", "^[?@.k == 1]"], ["^[?@.k == 1]", "|", "$.a"], ["^[?@.a]", "|", "$.b", "|", "^[0].s"], ["$.*", "&", "^[0].*"], ["^[0].*", "&", "$.*"], ["^[?@.a]", "|", "a"],
+                  ["a", "|", "^[?@.b]", "&", "^[?@.a]"], ["^[0]", "|", "^[0]", "|", "$"]):
+        for d in docs:
+            cases.append({"kind": "compound-fake", "text": " ".join(parts), "parts": parts, "doc": d, "ctx": {}})
     for t in qpool.EXTENSION:
         for d in (docs if ctx.tier != "quick" else ctx.rng.sample(docs, 4)):
             cases.append({"kind": "pool", "text": t, "doc": d, "ctx": ctx.rng.choice(qpool.CONTEXTS)})
@@ -148,6 +152,21 @@ def evaluate(ctx, cases):
             want = list(doc.keys()) if isinstance(doc, dict) else []
             if [v for _, v in got["ok"]] != want:
                 ctx.violation("the keys selector yields an object's member names in order and nothing for other values", inp, [v for _, v in got["ok"]], want)
+        elif kind == "compound-fake":
+            # each operand means what it means on its own: `^` wraps the document for that operand only
+            acc = None
+            op = None
+            try:
+                for piece in c["parts"]:
+                    if piece in ("|", "&"):
+                        op = piece
+                        continue
+                    vals = [core.canon(v) for v in jsonpath.findall(piece, doc)]
+                    acc = vals if acc is None else (acc + vals if op == "|" else [x for x in acc if x in vals])
+            except Exception:  # noqa: BLE001
+                acc = None
+            if acc is not None and [v for _, v in got["ok"]] != acc:
+                ctx.violation("in a compound query each operand keeps its own root identifier: the fake root wraps the document for that operand only", inp, [v for _, v in got["ok"]][:6], acc[:6])
         elif kind == "fake":
             std = "$" + c["text"][1:]
             want = _vals(jsonpath.compile(std), [doc], extra)
